@@ -82,7 +82,7 @@ class TransmissionGenerator:
             data_header.pad_octet_count == pad_octet_count
         ), f"POC expected {data_header.pad_octet_count} generated {pad_octet_count}"
         header_burst: Burst = TransmissionGenerator.generate_data_header_burst(
-            data_header=data_header
+            data_header=data_header, colour_code=colour_code
         )
         # (3) generate csbk bursts
         csbks: List[Burst] = TransmissionGenerator.generate_csbk_preambles(
@@ -198,10 +198,14 @@ class TransmissionGenerator:
         return bursts, pad_octet_count
 
     @staticmethod
-    def generate_data_header_burst(data_header: DataHeader) -> Burst:
+    def generate_data_header_burst(
+        data_header: DataHeader, colour_code: int = 5
+    ) -> Burst:
         burst: Burst = Burst(burst_type=BurstTypes.DataAndControl)
         burst.data = data_header
         burst.sync_or_embedded_signalling = SyncPatterns.BsSourcedData
-        burst.slot_type = SlotType(colour_code=5, data_type=DataTypes.DataHeader)
+        burst.slot_type = SlotType(
+            colour_code=colour_code, data_type=DataTypes.DataHeader
+        )
         burst.has_emb = False
         return burst
